@@ -144,7 +144,7 @@ IdxF2(sps) == {I("f", v) : v \in (1..NK) \X (1..NK) \X (1..Len(KindTagPat)) \X s
 DocF2(u) ==
   LET k1 == u[1]  k2 == u[2]  tp == u[3]  sp == u[4]  g == Rot(k1 + k2 + tp, 3) IN
   MkDoc("f" \o S(k1) \o "x" \o S(k2) \o "x" \o S(tp) \o "x" \o S(sp), sp, SubSeq(KindTagPat[tp], 1, 2), <<k1, k2>>, Rot(k1 + tp, 2), g, Rend(k1 + k2 + tp + sp))
-IdxF3 == {I("g", v) : v \in (1..NK) \X (1..NK) \X (1..NK) \X (1..Len(KindTagPat)) \X (1..3)}
+IdxF3 == {I("g", v) : v \in {v \in (1..NK) \X (1..NK) \X (1..NK) \X (1..Len(KindTagPat)) \X (1..3) : v[5] = Rot(v[1] + v[2] + v[3] + v[4], 3) \/ v[1] = v[2]}}
 DocF3(u) ==
   LET k1 == u[1]  k2 == u[2]  k3 == u[3]  tp == u[4]  g == u[5] IN
   MkDoc("g" \o S(k1) \o "x" \o S(k2) \o "x" \o S(k3) \o "x" \o S(tp) \o "x" \o S(g), 3, SubSeq(KindTagPat[tp], 1, 3), <<k1, k2, k3>>, Rot(k1 + k3, 2), g, Rend(k1 + k2 + k3 + tp + g))
